@@ -38,7 +38,28 @@ type c16Case struct {
 
 // "+vendored": the threads' files import packages through vendored paths (the decorator strips the
 // vendor prefix of every resolved path: code that only runs for such paths)
-var c16ThreadScenarios = []string{"goast.New+guess", "goast.WithResolver(simple)+simple", "goast.New+guess.WithMap", "unshared", "unshared+vendored", "goast.New+guess+vendored"}
+// "unshared+caching": every thread's restorer has a package-name resolver of its own that caches in a
+// plain map (legal: it is not shared); the library must not call it from several goroutines at once
+var c16ThreadScenarios = []string{"goast.New+guess", "goast.WithResolver(simple)+simple", "goast.New+guess.WithMap", "unshared", "unshared+vendored", "goast.New+guess+vendored", "unshared+caching"}
+
+// c16CachingRes is a stateful package-name resolver owned by one thread.
+type c16CachingRes struct {
+	inner resolver.RestorerResolver
+	cache map[string]string
+}
+
+func (r *c16CachingRes) ResolvePackage(path string) (string, error) {
+	vsched.Touch(&r.cache, false, "harness.cachingResolver.cache")
+	if n, ok := r.cache[path]; ok {
+		return n, nil
+	}
+	n, err := r.inner.ResolvePackage(path)
+	if err == nil {
+		vsched.Touch(&r.cache, true, "harness.cachingResolver.cache")
+		r.cache[path] = n
+	}
+	return n, err
+}
 
 // the first two files bind the same local name (x) to different paths: a resolver that mixes up the
 // per-file import tables of concurrently decorated files is caught by the sequential-result oracle
@@ -174,6 +195,8 @@ func c16Resolvers(sc string) (shared func() resolver.DecoratorResolver, res reso
 	case "goast.New+guess.WithMap":
 		g := goast.New()
 		return func() resolver.DecoratorResolver { return g }, guess.WithMap(stdNames)
+	case "unshared+caching":
+		return func() resolver.DecoratorResolver { return goast.New() }, nil // restorer resolver made per thread (c16Body)
 	default: // unshared
 		return func() resolver.DecoratorResolver { return goast.New() }, guess.New()
 	}
@@ -194,6 +217,9 @@ func c16Body(src string, dr resolver.DecoratorResolver, rr resolver.RestorerReso
 		}
 		res.tree = snapshotNode(f)
 		var buf bytes.Buffer
+		if rr == nil {
+			rr = &c16CachingRes{inner: guess.New(), cache: map[string]string{}}
+		}
 		if err := decorator.NewRestorerWithImports(localPath, rr).Fprint(&buf, f); err != nil {
 			res.err = "restore: " + err.Error()
 			return
@@ -229,7 +255,7 @@ func c16Discover() {
 		for i := 0; i < 3; i++ {
 			var r c16Result
 			vsched.ResetGlobals()
-			c16Body(c16Src(i, sc), mk(), rr, &r)()
+			vsched.Go(func(int, bool) int { return 0 }, c16Body(c16Src(i, sc), mk(), rr, &r))
 		}
 	}
 	vsched.Discover = false
@@ -249,7 +275,20 @@ func c16Threads(cs c16Case, c *explore.Chooser) (core.Outcome, string) {
 	ref := make([]c16Result, cs.Threads)
 	for i := range ref {
 		vsched.ResetGlobals()
-		c16Body(c16Src(i, cs.Scenario), mkRef(), rrRef, &ref[i])()
+		// alone, but under the scheduler: goroutines the library starts by itself are threads too
+		alone := vsched.Go(func(int, bool) int { return 0 }, c16Body(c16Src(i, cs.Scenario), mkRef(), rrRef, &ref[i]))
+		if len(alone.Races) > 0 {
+			sort.Strings(alone.Races)
+			return fail("data-race-within-one-call:"+raceName(alone.Races[0]), "thread %d's calls made alone: the library's own goroutines race (accesses unordered by happens-before): %s", i, strings.Join(alone.Races, "; "))
+		}
+		if alone.Dead != "" {
+			return fail("deadlock", "thread %d alone: %s", i, alone.Dead)
+		}
+		for _, p := range alone.Panics() {
+			if p != nil {
+				return fail("panic", "thread %d alone panicked: %v", i, p)
+			}
+		}
 		if ref[i].err != "" {
 			return fail("engine:reference", "%s", ref[i].err)
 		}
